@@ -381,7 +381,11 @@ func (a *Act) instrModsS(li *loopInfo, m *modSet, ins ssa.Instruction, depth int
 		if depth == 0 {
 			m.ranges[x.Iter] = true
 		}
-	case *ssa.Defer, *ssa.Go, *ssa.Send, *ssa.Select:
+	case *ssa.Defer:
+		if !isMutexDefer(x) {
+			m.all = true
+		}
+	case *ssa.Go, *ssa.Send, *ssa.Select:
 		m.all = true
 	case ssa.CallInstruction:
 		a.callMods(li, m, x, depth, stack, subst)
@@ -499,7 +503,7 @@ func (a *Act) callMods(li *loopInfo, m *modSet, c ssa.CallInstruction, depth int
 								m.heap(h, traceSorts[h]).unknown = true
 							}
 							for h, srt := range a.u.heapSort {
-								if strings.HasPrefix(h, "T_arg_") {
+								if strings.HasPrefix(h, "T_arg_") || strings.HasPrefix(h, "T_res_") {
 									m.heap(h, srt).unknown = true
 								}
 							}
@@ -515,7 +519,7 @@ func (a *Act) callMods(li *loopInfo, m *modSet, c ssa.CallInstruction, depth int
 					m.heap(h, traceSorts[h]).unknown = true
 				}
 				for h, srt := range a.u.heapSort {
-					if strings.HasPrefix(h, "T_arg_") {
+					if strings.HasPrefix(h, "T_arg_") || strings.HasPrefix(h, "T_res_") {
 						m.heap(h, srt).unknown = true
 					}
 				}
